@@ -55,6 +55,7 @@ fn main() {
     let table: Arc<Table> = Arc::new(serde_json::from_str(&std::fs::read_to_string(&args[2]).unwrap()).unwrap());
     let threads: usize = args[3].parse().unwrap();
     install_hook();
+    start_watchdog(env_u64("VERIF_WATCHDOG", 90));
     let us_index: HashMap<Term, usize> = table.us.iter().cloned().enumerate().map(|(i, t)| (t, i)).collect();
     let pool_ui: Arc<Vec<usize>> = Arc::new(uni.terms.iter().map(|t| us_index[t]).collect());
     let next = Arc::new(AtomicUsize::new(0));
@@ -71,6 +72,7 @@ fn main() {
             let redundant = (0..uni.terms.len()).any(|ti| spec.lab[pool_ui[ti]] != 0 && spec.slots[ti].len() < uni.terms[ti].fv().len());
             if redundant { counts.lock().unwrap()[1] += 1; continue; }
             for variant in 0..4 {
+                tick(&format!("{} state {:?} variant {}", uni.name, spec.key, variant));
                 let (uni2, spec2, pool_ui2) = (uni.clone(), spec.clone(), pool_ui.clone());
                 let kind = NAMINGS[(si + variant) % NAMINGS.len()];
                 let r = std::thread::spawn(move || {
